@@ -116,3 +116,42 @@ func VP_C12_RemoteUpgrade() {
 	}
 	vpCover("end")
 }
+
+// VP_C12_RemoteUpgradeSurvivesOutage: while the master is unreachable (every request fails at
+// the transport level) logins of an upgradeable user are still answered and nothing is
+// rewritten; once the master is back, the next login's upgrade request reaches it and the
+// (idle) master rewrites the record.
+func VP_C12_RemoteUpgradeSurvivesOutage() {
+	url := vpRemoteURL()
+	mbase, mcfg := vpAgentDir(1)
+	vpSeedUser(mcfg, "root", "rootpw", true)
+	vpSeedUser(mcfg, "u", "old", false)
+	vpYAMLFile(mcfg, vpConfigDoc(mbase, 2))
+	ms, err := NewStore(mcfg, "local", "", "", "")
+	if err != nil {
+		panic("setup: " + err.Error())
+	}
+	sessions, err := NewWebSessionFactory(vpLifetime * time.Second)
+	if err != nil {
+		panic("setup")
+	}
+	vpMaster, vpMasterSessions, vpRemoteStalls = nil, sessions, false // nil master: the endpoint reports a transport error
+	vpRemoteCalls = nil
+	_, st, _, _ := vpAgent(2, url)
+	mbefore := vpFsSnapshot(mbase)
+	failures := 10 + vpChoose("failed-forwards", 3) // around the number of rate-limit slots
+	for i := 0; i < failures; i++ {
+		ok, _, _, _ := st.Authenticate("u", "old")
+		vpAssert("login-answered-during-the-outage", ok)
+		vpSettle()
+	}
+	vpAssert("nothing-rewritten-during-the-outage", vpFsSame(mbefore, vpFsSnapshot(mbase)))
+	vpMaster = ms.GetInterface() // the master is back
+	n0 := len(vpRemoteCalls)
+	ok, _, _, _ := st.Authenticate("u", "old")
+	vpSettle()
+	vpAssert("login-answered-after-the-outage", ok)
+	vpAssert("upgrade-request-reaches-the-master-again", len(vpRemoteCalls) > n0)
+	vpAssert("upgrade-happens-on-the-idle-master-after-the-outage", vpRewrittenCorrectly(mcfg, mbase, "old", ""))
+	vpCover("end")
+}
